@@ -353,13 +353,14 @@ func formatType(tr *tokenReader) []byte {
 		typeBytes = append(typeBytes, tr.Token().concrete...)
 	}
 
-	// ...[]?
-	tr.Next()
-	if tr.Token().kind == tokenKindOpenSquare {
+	// ...[]? (any number of them: T[][] is an array of arrays)
+	for {
+		if !tr.Next() || tr.Token().kind != tokenKindOpenSquare {
+			tr.UnNext()
+			break
+		}
 		tr.Next()
 		typeBytes = append(typeBytes, []byte("[]")...)
-	} else {
-		tr.UnNext()
 	}
 
 	return typeBytes
